@@ -53,6 +53,8 @@ type Core struct {
 
 	// A `stack` of labels to jump to if an exception is raised
 	ExceptionCatchLabels []CallFrame
+	// State of the core at the time each catch label was set (parallel to `ExceptionCatchLabels`).
+	exceptionCatchStates []catchState
 
 	// Points to the start of the current stackframe
 	// Then, the absolute index can be computed by adding the value of mp and the relative offset of the memory location.
@@ -61,6 +63,13 @@ type Core struct {
 	CancelCtx *context.Context
 	// Describes some resource limits for the current core
 	Limits CoreLimits
+}
+
+// Everything that needs to be restored when control is transferred to a catch block.
+type catchState struct {
+	callStackLen  int
+	stackLen      int
+	memoryPointer int64
 }
 
 type CoreLimits struct {
@@ -315,9 +324,13 @@ outer:
 					// If this was not the case, a function would basically "return twice",
 					// as the jump to the error-handling code would not pop the most current call frame.
 					catchLocation := self.ExceptionCatchLabels[len(self.ExceptionCatchLabels)-1]
-					if self.callFrame().Function != catchLocation.Function {
-						self.popCallStack()
-					}
+					catchState := self.exceptionCatchStates[len(self.exceptionCatchStates)-1]
+
+					// Unwind to the function (and to the state) in which the `try` block was entered:
+					// drop the frames, locals and operands of everything that was active when the exception occurred.
+					self.CallStack = self.CallStack[:catchState.callStackLen]
+					self.Stack = self.Stack[:catchState.stackLen]
+					self.MemoryPointer = catchState.memoryPointer
 					*self.callFrame() = catchLocation
 
 					self.push(
